@@ -24,6 +24,15 @@ typedef enum { VBI_WST_LEVEL_1, VBI_WST_LEVEL_1p5, VBI_WST_LEVEL_2p5, VBI_WST_LE
 struct caption { int carved_out; };
 struct teletext { int carved_out; };
 
+#include "src/tables.h"
+/* defined BEFORE packet.c is parsed: with only the incomplete declaration `extern ... vbi_cni_table[]' in scope cbmc 6.11 checks
+   p->name in station_lookup against an object of unknown size and reports spurious bounds failures (DESIGN R16) */
+const struct vbi_cni_entry vbi_cni_table[4] = {
+  { 1, "DE", "ARD",  0x4901, 0x3D41, 0x3341, 0x0DC1 },
+  { 2, "DE", "ZDF",  0x4902, 0x3D42, 0x3342, 0x0DC2 },
+  { 3, "AT", "ORF1", 0x4301, 0x2AC1, 0x3AC1, 0x0AC1 },
+  { 0, 0, 0, 0, 0, 0, 0 }
+};
 #include "src/packet.c"
 #include "src/wss.c"
 
@@ -47,12 +56,6 @@ static void ref_encode_link(uint8_t *raw, unsigned mag_cur, unsigned mag_link, u
 }
 static vbi_decoder VBI;
 
-const struct vbi_cni_entry vbi_cni_table[4] = {
-  { 1, "DE", "ARD",  0x4901, 0x3D41, 0x3341, 0x0DC1 },
-  { 2, "DE", "ZDF",  0x4902, 0x3D42, 0x3342, 0x0DC2 },
-  { 3, "AT", "ORF1", 0x4301, 0x2AC1, 0x3AC1, 0x0AC1 },
-  { 0, 0, 0, 0, 0, 0, 0 }
-};
 /* independent table scan */
 static unsigned ref_station(int which /*1=8301 2=8302 4=VPS*/, unsigned cni)
 {
@@ -81,7 +84,9 @@ static void c13_event(vbi_decoder *vbi, vbi_event *ev)
 #endif
   if (ev->type == VBI_EVENT_NETWORK || ev->type == VBI_EVENT_NETWORK_ID) {
     r->cni_vps = (unsigned) ev->ev.network.cni_vps; r->cni_8301 = (unsigned) ev->ev.network.cni_8301; r->cni_8302 = (unsigned) ev->ev.network.cni_8302; r->nuid = ev->ev.network.nuid;
-  } else if (ev->type == VBI_EVENT_PROG_ID) r->pid = *ev->ev.prog_id;
+  } else if (ev->type == VBI_EVENT_PROG_ID) { const vbi_program_id *pp = ev->ev.prog_id;   /* field-wise: see DESIGN R16 */
+    r->pid.channel = pp->channel; r->pid.cni_type = pp->cni_type; r->pid.cni = pp->cni; r->pid.pil = pp->pil; r->pid.luf = pp->luf;
+    r->pid.mi = pp->mi; r->pid.prf = pp->prf; r->pid.pcs_audio = pp->pcs_audio; r->pid.pty = pp->pty; r->pid.tape_delayed = pp->tape_delayed; }
   else if (ev->type == VBI_EVENT_LOCAL_TIME) { r->lt = (long long) ev->ev.local_time->time; r->se = ev->ev.local_time->seconds_east; r->se_valid = ev->ev.local_time->seconds_east_valid; }
   else if (ev->type == VBI_EVENT_ASPECT) { r->first_line = ev->ev.aspect.first_line; r->last_line = ev->ev.aspect.last_line; r->film = ev->ev.aspect.film_mode;
     r->subt = ev->ev.aspect.open_subtitles; r->anamorphic = (ev->ev.aspect.ratio < 0.9); }
